@@ -365,7 +365,12 @@ where
             || active_blob.records_count() as u64 >= config_max_count
         {
             // In case of current time being earlier than active blob's creation, error will contain the difference
+            #[cfg(not(pearl_verif))]
             let dur = active_blob.created_at().elapsed().map_err(|e| e.duration());
+            #[cfg(pearl_verif)]
+            let dur = crate::verif::system_now()
+                .duration_since(active_blob.created_at())
+                .map_err(|e| e.duration());
             let dur = match dur {
                 Ok(d) => d,
                 Err(d) => d,
